@@ -294,6 +294,17 @@ trait GraphQuery {
     where
         Constant: TypedConstant<T>;
 
+    /// Extract the scalar value from a constant node which is combined with
+    /// `other_id` by a broadcasting binary operator.
+    ///
+    /// Unlike [`get_scalar`](GraphQuery::get_scalar) this returns `None` if
+    /// the constant has more dimensions than `other_id` is known to have. In
+    /// that case the binary operator broadcasts its output to the rank of the
+    /// constant, so the constant cannot be treated as a scalar.
+    fn get_scalar_operand<T>(&self, node_id: NodeId, other_id: NodeId) -> Option<T>
+    where
+        Constant: TypedConstant<T>;
+
     /// Extract the vector value from a constant node.
     fn get_vector<T>(&self, node_id: NodeId) -> Option<&[T]>
     where
@@ -318,6 +329,19 @@ impl GraphQuery for Graph {
             Node::Constant(const_node) => const_node.as_scalar(),
             _ => None,
         })
+    }
+
+    fn get_scalar_operand<T>(&self, node_id: NodeId, other_id: NodeId) -> Option<T>
+    where
+        Constant: TypedConstant<T>,
+    {
+        let scalar = self.get_scalar(node_id)?;
+        let ndim = self.get_rank(node_id)?;
+        if ndim == 0 || self.get_rank(other_id).is_some_and(|other| other >= ndim) {
+            Some(scalar)
+        } else {
+            None
+        }
     }
 
     fn get_vector<T>(&self, node_id: NodeId) -> Option<&[T]>
@@ -608,8 +632,9 @@ impl PatternFusion for SwishFusion {
 
     fn maybe_fuse(&self, pat_match: &Match, g: &Graph) -> Result<Swish, FusionError> {
         let alpha_input = pat_match.node_id("alpha").expect("missing symbol");
+        let x_input = pat_match.node_id("x").expect("missing symbol");
         let alpha = g
-            .get_scalar(alpha_input)
+            .get_scalar_operand(alpha_input, x_input)
             .ok_or(FusionError::CheckFailed("alpha not a scalar"))?;
         Ok(Swish { alpha })
     }
@@ -928,8 +953,8 @@ impl FusionVisitor for MatMulScaleFusion {
             }
 
             let [lhs, rhs] = binary_op_input_ids(op_node)?;
-            let lhs_scalar = graph.get_scalar(lhs);
-            let rhs_scalar = graph.get_scalar(rhs);
+            let lhs_scalar = graph.get_scalar_operand(lhs, rhs);
+            let rhs_scalar = graph.get_scalar_operand(rhs, lhs);
 
             match op_type {
                 "Mul" => match (lhs_scalar, rhs_scalar) {
